@@ -21,20 +21,32 @@ pub struct RealKey {
 }
 
 /// Verify a signature over `msg` with OpenSSL and with both back ends' primitives.
+/// Bit length of the modulus of an RSAPublicKey (SEQUENCE { INTEGER n, INTEGER e }).
+pub fn rsa_modulus_bits(raw: &[u8]) -> Option<usize> {
+    let t = refmodel::der::Reader::new(raw, refmodel::der::Mode::Lenient).root().ok()?;
+    let n = t.child(0)?.content(raw).to_vec();
+    let n: Vec<u8> = n.into_iter().skip_while(|b| *b == 0).collect();
+    let top = *n.first()?;
+    Some(n.len() * 8 - top.leading_zeros() as usize)
+}
+
 pub fn verify_all(alg: Alg, key: &KeyPub, msg: &[u8], sig: &[u8], locus: &str, f: &mut Vec<Finding>) {
     match ossl_verify(alg, &key.spki(), msg, sig) {
         Ok(true) => {}
         Ok(false) => f.push(Finding::new("SIG-INVALID(openssl)", locus, format!("OpenSSL rejects the {} signature over the signed bytes", alg.name()))),
         Err(e) => f.push(Finding::new("SIG-INVALID(openssl)", locus, e)),
     }
-    // the two back ends' RSA verifiers are defined for moduli of 2048..=8192 bits only (a remote signer may use less)
-    if alg.is_rsa() && key.raw.len() < 260 {
+    // the two back ends' RSA verifiers are defined for moduli of 2048..=8192 bits only (a remote signer may use less);
+    // ring rounds the modulus length up to whole octets (a 2047-bit modulus passes), aws-lc-rs does not
+    let bits = if alg.is_rsa() { rsa_modulus_bits(&key.raw).unwrap_or(0) } else { usize::MAX };
+    if alg.is_rsa() && bits.div_ceil(8) * 8 < 2048 {
         return;
     }
+    let aws_defined = !alg.is_rsa() || bits >= 2048;
     if ring_verify(alg, &key.raw, msg, sig) == Some(false) {
         f.push(Finding::new("SIG-INVALID(ring)", locus, format!("ring rejects the {} signature", alg.name())));
     }
-    if aws_verify(alg, &key.raw, msg, sig) == Some(false) {
+    if aws_defined && aws_verify(alg, &key.raw, msg, sig) == Some(false) {
         f.push(Finding::new("SIG-INVALID(aws-lc-rs)", locus, format!("aws-lc-rs rejects the {} signature", alg.name())));
     }
 }
